@@ -120,12 +120,10 @@ example : norm 2 (.mul (.add (.atom 0 1) (.atom 1 1)) (.add (.atom 0 1) (.suc (.
         (.mul (.mul (.atom 0 1) (.atom 1 1)) (.num 2))) (.mul (.atom 1 1) (.atom 1 1)) := by
   rfl
 
-/-- Normalising a normal form changes nothing: every term of the shape `isNF` (0, or a left-nested
-sum of monomials with strictly increasing bodies, each a numeral >= 1, a sorted product of atoms, or
-such a product times a coefficient >= 2) is a fixed point of `norm_full`.
-PARTIAL: the other half, `isNF (norm t)` for every `t`, is not proved; the harness checks it on
-the implementation's output for every generated expression (driver op `isnf`). -/
-theorem norm_idem_partial (one : Nat) (t : NExp) (h : isNF one t = true) : norm one t = t :=
+/-- Every term of the shape `isNF` (0, or a left-nested sum of monomials with strictly increasing
+bodies, each a numeral >= 1, a sorted product of atoms, or such a product times a coefficient >= 2)
+is a fixed point of `norm_full`.  (That `norm t` always has this shape is `norm_nf_closed`.) -/
+theorem norm_fixed_of_isNF (one : Nat) (t : NExp) (h : isNF one t = true) : norm one t = t :=
   norm_nf h
 
 /- x + x*x + x*y*2 is a normal form (atoms x = 0, y = 1, `one` ranked 2) -/
